@@ -90,7 +90,7 @@ def result_of(sc, snapshot=False):
            "rates": {s: [float(x) for x in tr.sim.charging_rates[i, :n]] for i, s in enumerate(ids)},
            "energy": {k: float(v.energy_delivered) for k, v in tr.sim.ev_history.items()},
            "events": sorted((e.timestamp, e.event_type, str(getattr(getattr(e, "ev", None), "session_id", None))) for e in tr.sim.event_history),
-           "digest": tr.digest}
+           "digest": tr.digest, "width": int(tr.sim.pilot_signals.shape[1]), "rate_width": int(tr.sim.charging_rates.shape[1])}
     # the same outputs as a user reads them: the labelled tables (one column per station id)
     for key_, fn_ in (("pilots_table", "pilot_signals_as_df"), ("rates_table", "charging_rates_as_df")):
         df_ = getattr(tr.sim, fn_)()
@@ -113,6 +113,8 @@ def differ(a, b, tol, shift=0):
         return "exception %s vs %s" % (a["exc"], b["exc"])
     if b["iteration"] != a["iteration"] + shift:
         return "iteration %d vs %d (shift %d)" % (a["iteration"], b["iteration"], shift)
+    if shift == 0 and "width" in a and "width" in b and (a["width"], a["rate_width"]) != (b["width"], b["rate_width"]):
+        return "result matrices are %d / %d periods wide vs %d / %d (pilots / rates) for equal inputs" % (a["width"], a["rate_width"], b["width"], b["rate_width"])
     for key in ("pilots", "rates", "pilots_table", "rates_table", "line_currents"):
         if key not in a or key not in b:
             continue
@@ -266,6 +268,8 @@ def check(sc):
     # the same inputs, but the network / event queue / EV objects / algorithm object have already served an earlier run
     sc2 = copy.deepcopy(sc)
     sc2["second_life"] = {k: r.random() < 0.7 for k in ("network", "queue", "evs", "algo")}
+    if sub(sc["seed"], "longer_first_life").random() < 0.5:
+        sc2["second_life"]["longer_first_life"] = sub(sc["seed"], "longer_first_life").choice([3, 10, 25])      # the earlier run ended later than this one
     if not sc.get("one_noisy_battery"):
         # (with a noisy battery the earlier run has consumed part of the environment's random stream: the second life legitimately
         # sees other draws)
